@@ -39,7 +39,7 @@ BigPool ==
      V2 |-> {Sym("b", TBV(2)), Sym("c", TBV(2)), BVC(0, 2), BVC(1, 2), BVC(2, 2), BVC(3, 2)},
      V3 |-> {Sym("d", TBV(3)), BVC(0, 3), BVC(5, 3), BVC(7, 3), BVC(3, 3)},
      S |-> {Sym("s", TString), Str(<<>>), Str(<<97>>), Str(<<97, 98>>), Str(<<45, 49>>), Str(<<48, 49>>),
-            Str(<<97, 98, 97>>)},
+            Str(<<97, 98, 97>>), Str(<<1635>>)},        \* the last one: ARABIC-INDIC DIGIT THREE (a digit for Unicode, not for SMT-LIB)
      AII |-> {Sym("a", TAII), K0, K0s},
      AVB |-> {Sym("m", TAVB), KB}]
 
